@@ -191,7 +191,7 @@ def _run(cmd, cwd=None, timeout=3600, env=None):
 
 # which regenerated tables (harness/extract.py) the model of a property is built on: when one of them can no longer be regenerated the
 # property is no longer shown to hold for the code as it is now
-TIE_A = {'C05': ('grammar',), 'C06': ('grammar', 'grammar_rank'), 'C09': ('facade',), 'C11': ('runtime_consts',), 'C13': ('runtime_consts',),
+TIE_A = {'C02': ('grammar',), 'C05': ('grammar',), 'C06': ('grammar', 'grammar_rank'), 'C09': ('facade',), 'C11': ('runtime_consts',), 'C13': ('runtime_consts',),
          'C20': ('runtime_ast',)}
 
 
